@@ -15,6 +15,8 @@ import (
 	"golang.org/x/tools/go/ssa"
 )
 
+var noReplay bool
+
 var allPkgs = []string{"./message", "./sessions", "./service", "./topics"}
 
 func main() {
@@ -47,6 +49,7 @@ func cmdCheck(args []string) int {
 	timeout := fs.Int("timeout", 0, "per-obligation timeout seconds")
 	obsel := fs.String("ob", "", "only obligations whose name contains this string")
 	noinc := fs.Bool("noinc", false, "skip the incremental pre-pass")
+	noreplay := fs.Bool("noreplay", false, "do not search for and replay counterexamples")
 	fs.Parse(args)
 	start := time.Now()
 	eng, err := newEngine(*repo, allPkgs)
@@ -126,6 +129,13 @@ func cmdCheck(args []string) int {
 	}
 	opt.only = *obsel
 	opt.noInc = *noinc
+	noReplay = *noreplay
+	if !noReplay && *prop != "" {
+		old, _ := filepath.Glob("/verif/replays/" + *prop + "_*")
+		for _, f := range old {
+			os.Remove(f)
+		}
+	}
 	results := solveAll(eng, fvs, opt)
 	failed := report(eng, *prop, *tier, fvs, results, under, start, loadMs, *verbose, *evdir, *noev, dir)
 	if failed > 0 {
@@ -269,7 +279,10 @@ func report(eng *Engine, prop, tier string, fvs []*funcVC, results []*Result, un
 		if p == "" && len(r.Ob.Tags) > 0 {
 			p = r.Ob.Tags[0]
 		}
-		rp := writeReplay(eng, p, r, qdir)
+		rp := "(replay disabled)"
+		if !noReplay {
+			rp = writeReplay(eng, p, r, qdir)
+		}
 		suffix := ""
 		if !r.reproduced {
 			suffix = " no-failing-input-found"
